@@ -1,6 +1,8 @@
 // Contract harnesses for libtw2-huffman (C07).
 //   complete_*  : full domain (all node/symbol encodings; every node and symbol of the built-in table)
 //   bounded_*   : chosen bound on the input LENGTH (stated per harness); codes/tables symbolic where noted
+// The functional contracts of compress_impl_unsafe / decompress_unsafe and the round trip are proved unbounded by
+// the Verus unit `huff`; Kani runs of those functions (<= 1 byte!) did not finish in 25 minutes and were removed.
 use super::*;
 
 #[path = "/verif/kani/draw.rs"]
@@ -47,6 +49,24 @@ pub fn contract_table_symbol(sym: u16) {
         i += 1;
     }
     assert!(idx == sym);
+}
+
+/// contract compressed_len / compressed_len_bug for an ARBITRARY table (symbolic code lengths for the symbols
+/// used), input of <= 2 bytes: the sum of the code lengths of the input symbols plus the EOF code, rounded up to
+/// bytes (`bug` form: /8 + 1).  Stand-in for the Verus contract of compressed_bit_len (iterator map/fold).
+pub fn contract_compressed_len(table: &mut Huffman, ilen: usize, lens: [u8; 3]) {
+    if ilen > 2 {
+        return;
+    }
+    let input = [0x41u8, 0x42u8];
+    let mut total_bits = 0usize;
+    for k in 0..=ilen {
+        let sym = if k < ilen { input[k] as u16 } else { EOF };
+        table.nodes[sym as usize] = SymbolRepr { bits: 0, num_bits: lens[k] }.to_node();
+        total_bits += lens[k] as usize;
+    }
+    assert!(table.compressed_len(&input[..ilen]) == (total_bits + 7) / 8);
+    assert!(table.compressed_len_bug(&input[..ilen]) == total_bits / 8 + 1);
 }
 
 /// bit i (0-based, LSB-first inside each byte) of a byte string
@@ -125,41 +145,6 @@ pub fn contract_compress_bits(
     }
 }
 
-/// contract compress -> decompress with the built-in table, input <= N bytes, every output capacity 0..=N+1:
-///   capacity >= len: Ok and equal to the input (also for the reference-compatible `bug` form);
-///   capacity <  len: Err(Capacity); nothing is written past the capacity.
-pub fn contract_roundtrip<const N: usize>(input: [u8; N], ilen: usize, cap: usize, bug: bool) {
-    if ilen > N || cap > N + 1 {
-        return;
-    }
-    let t = &instances::TEEWORLDS;
-    let mut comp = [0u8; 16];
-    let clen = {
-        let c = if bug {
-            t.compress_bug(&input[..ilen], &mut comp[..]).unwrap()
-        } else {
-            t.compress(&input[..ilen], &mut comp[..]).unwrap()
-        };
-        c.len()
-    };
-    assert!(clen == if bug { t.compressed_len_bug(&input[..ilen]) } else { t.compressed_len(&input[..ilen]) });
-    let mut out = [0x55u8; 8];
-    let r = t.decompress_unsafe(&comp[..clen], &mut out[..cap]);
-    if cap >= ilen {
-        assert!(r == Ok(ilen));
-        for j in 0..N {
-            if j < ilen {
-                assert!(out[j] == input[j]);
-            }
-        }
-    } else {
-        assert!(r.is_err());
-    }
-    for j in cap..8 {
-        assert!(out[j] == 0x55);
-    }
-}
-
 /// contract decompress_unsafe on ARBITRARY input bytes (built-in table), input <= N bytes, capacity <= C:
 ///   terminates, Ok(len) ==> len <= capacity, never writes past the capacity.
 pub fn contract_decompress_total<const N: usize>(input: [u8; N], ilen: usize, cap: usize) {
@@ -175,6 +160,76 @@ pub fn contract_decompress_total<const N: usize>(input: [u8; N], ilen: usize, ca
     for j in cap..6 {
         assert!(out[j] == 0x55);
     }
+}
+
+/// the three table predicates of the Verus unit `huff` (inner_ok, codes_wf, codes_ok), executable
+pub fn table_predicates_hold(t: &Huffman) -> bool {
+    for idx in NUM_SYMBOLS..NUM_NODES as u16 {
+        let n = t.get_node(idx).unwrap();
+        if !(n.children[0] < idx && n.children[1] < idx) {
+            return false;
+        }
+    }
+    for sym in 0..NUM_SYMBOLS {
+        let repr = t.get_node(sym).unwrap_err();
+        if !(1 <= repr.num_bits && repr.num_bits <= 24 && repr.bits >> repr.num_bits == 0) {
+            return false;
+        }
+        let mut idx = ROOT_IDX;
+        for i in 0..repr.num_bits as u32 {
+            match t.get_node(idx) {
+                Ok(node) => idx = node.children[((repr.bits >> i) & 1) as usize],
+                Err(_) => return false,
+            }
+        }
+        if idx != sym {
+            return false;
+        }
+    }
+    true
+}
+
+/// contract (sampled only): a table built by from_frequencies_array from ANY frequency vector satisfies the table
+/// predicates, and compress -> decompress with it is the identity for every capacity >= len (both forms), an error
+/// below; compressed_len(_bug) is exact; trailing garbage after the stream does not matter.
+#[cfg(not(kani))]
+pub static BUILT: std::sync::atomic::AtomicUsize = std::sync::atomic::AtomicUsize::new(0);
+#[cfg(not(kani))]
+pub fn contract_freq_table_roundtrip(freqs: &[u32; 256], input: &[u8], cap: usize, bug: bool, trailing: &[u8]) {
+    // from_frequencies_array panics (ArrayVec capacity / to_node assert) for vectors that need codes longer than 24
+    // bits; no table exists then, which is outside this contract
+    let t = match std::panic::catch_unwind(|| Huffman::from_frequencies_array(freqs)) {
+        Ok(t) => t,
+        Err(_) => return,
+    };
+    BUILT.fetch_add(1, std::sync::atomic::Ordering::Relaxed);
+    assert!(table_predicates_hold(&t));
+    contract_roundtrip_table(&t, input, cap, bug, trailing);
+}
+#[cfg(not(kani))]
+pub fn contract_roundtrip_table(t: &Huffman, input: &[u8], cap: usize, bug: bool, trailing: &[u8]) {
+    let mut comp: Vec<u8> = Vec::with_capacity(input.len() * 3 + 4 + trailing.len());
+    let clen = {
+        let c = if bug { t.compress_bug(input, &mut comp).unwrap() } else { t.compress(input, &mut comp).unwrap() };
+        c.len()
+    };
+    assert!(clen == if bug { t.compressed_len_bug(input) } else { t.compressed_len(input) });
+    // too small a buffer is refused
+    if clen > 0 {
+        let mut small = vec![0u8; clen - 1];
+        let r = if bug { t.compress_bug(input, &mut small[..]) } else { t.compress(input, &mut small[..]) };
+        assert!(r.is_err());
+    }
+    comp.extend_from_slice(trailing);
+    let mut out = vec![0x55u8; cap + 4];
+    let r = t.decompress_unsafe(&comp, &mut out[..cap]);
+    if cap >= input.len() {
+        assert!(r == Ok(input.len()));
+        assert!(&out[..input.len()] == input);
+    } else {
+        assert!(r.is_err());
+    }
+    assert!(out[cap..].iter().all(|&b| b == 0x55));
 }
 
 pub mod proofs {
@@ -201,45 +256,84 @@ pub mod proofs {
         draw::reached();
         contract_table_symbol(s);
     });
-    // symbols are fixed (0x41, 0x42, EOF) so that the table is written at constant indices; their CODES are symbolic,
-    // which is what compress_impl_unsafe depends on
-    harness!(bounded_huff_compress_bits_1, unwind = 26, {
+    // symbols are fixed (0x41, 0x42, EOF) so that the table is written at constant indices; their code LENGTHS are
+    // symbolic, which is all compressed_bit_len depends on
+    harness!(bounded_huff_compressed_len, unwind = 5, {
         let mut table = Huffman { nodes: [NODE_SENTINEL; NUM_NODES] };
         let ilen = draw::usize();
-        let codes = [(draw::u32(), draw::u8()), (draw::u32(), draw::u8()), (1u32, 1u8)];
-        let cap = draw::usize();
-        let bug = draw::bool();
-        draw::assume(ilen <= 1 && cap <= 7);
+        let lens = [draw::u8(), draw::u8(), draw::u8()];
+        draw::assume(ilen <= 2);
         draw::reached();
-        contract_compress_bits(&mut table, [0x41, 0x42], ilen, codes, cap, bug);
+        contract_compressed_len(&mut table, ilen, lens);
     });
-    harness!(bounded_huff_compress_bits, unwind = 26, {
+    // ---- sampled (native PRNG driver only; never counted as proved) ----
+    #[cfg(not(kani))]
+    harness!(sampled_huff_roundtrip_builtin, unwind = 1, {
+        let input = draw::bytes::<12>();
+        let ilen = draw::usize_le(12);
+        let cap = draw::usize_le(14);
+        let bug = draw::bool();
+        let trailing = draw::bytes::<3>();
+        let tlen = draw::usize_le(3);
+        draw::reached();
+        contract_roundtrip_table(&instances::TEEWORLDS, &input[..ilen], cap, bug, &trailing[..tlen]);
+    });
+    #[cfg(not(kani))]
+    harness!(sampled_huff_roundtrip_freq_table, unwind = 1, {
+        let mut freqs = [0u32; 256];
+        let shape = draw::u8();
+        for i in 0..256 {
+            let f = draw::u32();
+            // skewed vectors give long codes (up to the 24-bit limit is the interesting region)
+            freqs[i] = match shape % 4 {
+                0 => f,
+                1 => 1 + f % 1000,
+                2 => f | 0x100,
+                _ => if i % 12 == 0 { 1u32 << ((i / 12) as u32) } else { 1 + f % 5 },
+            };
+        }
+        let input = draw::bytes::<8>();
+        let ilen = draw::usize_le(8);
+        let cap = draw::usize_le(10);
+        let bug = draw::bool();
+        let trailing = draw::bytes::<2>();
+        let tlen = draw::usize_le(2);
+        draw::reached();
+        contract_freq_table_roundtrip(&freqs, &input[..ilen], cap, bug, &trailing[..tlen]);
+    });
+    /// vacuity guard of the harness above: some sampled frequency vectors must yield a table
+    #[cfg(not(kani))]
+    #[test]
+    fn sampled_huff_zz_freq_tables_built() {
+        if draw::sample_cfg().is_some() {
+            // runs after sampled_huff_roundtrip_freq_table only with --test-threads 1; informative otherwise
+            println!("SAMPLED-INFO tables built so far: {}", BUILT.load(std::sync::atomic::Ordering::Relaxed));
+        }
+    }
+    #[cfg(not(kani))]
+    harness!(sampled_huff_compress_bits, unwind = 1, {
         let mut table = Huffman { nodes: [NODE_SENTINEL; NUM_NODES] };
-        let ilen = draw::usize();
-        let codes = [(draw::u32(), draw::u8()), (draw::u32(), draw::u8()), (draw::u32(), draw::u8())];
-        let cap = draw::usize();
+        let ilen = draw::usize_le(2);
+        let input = [draw::u8(), draw::u8()];
+        let nb = |v: usize| (v + 1) as u8;
+        let codes = [
+            (draw::u32(), nb(draw::usize_le(23))),
+            (draw::u32(), nb(draw::usize_le(23))),
+            (draw::u32(), nb(draw::usize_le(23))),
+        ];
+        let cap = draw::usize_le(12);
         let bug = draw::bool();
-        draw::assume(ilen <= 2 && cap <= 12);
+        let m = |c: (u32, u8)| (c.0 & ((1u32 << c.1) - 1), c.1);
         draw::reached();
-        contract_compress_bits(&mut table, [0x41, 0x42], ilen, codes, cap, bug);
+        contract_compress_bits(&mut table, input, ilen, [m(codes[0]), m(codes[1]), m(codes[2])], cap, bug);
     });
-    harness!(bounded_huff_roundtrip_1, unwind = 26, {
-        let input = draw::bytes::<1>();
-        let ilen = draw::usize();
-        let cap = draw::usize();
-        let bug = draw::bool();
-        draw::assume(ilen <= 1 && cap <= 2);
+    #[cfg(not(kani))]
+    harness!(sampled_huff_decompress_total, unwind = 1, {
+        let input = draw::bytes::<16>();
+        let ilen = draw::usize_le(16);
+        let cap = draw::usize_le(3);
         draw::reached();
-        contract_roundtrip::<1>(input, ilen, cap, bug);
-    });
-    harness!(bounded_huff_roundtrip_2, unwind = 26, {
-        let input = draw::bytes::<2>();
-        let ilen = draw::usize();
-        let cap = draw::usize();
-        let bug = draw::bool();
-        draw::assume(ilen <= 2 && cap <= 3);
-        draw::reached();
-        contract_roundtrip::<2>(input, ilen, cap, bug);
+        contract_decompress_total::<16>(input, ilen, cap);
     });
     harness!(bounded_huff_decompress_total_2, unwind = 26, {
         let input = draw::bytes::<2>();
